@@ -11,7 +11,6 @@ import (
 
 	"github.com/dpb587/rdfkit-go/encoding/nquads"
 	"github.com/dpb587/rdfkit-go/rdf"
-	"github.com/dpb587/rdfkit-go/rdf/blanknodes"
 )
 
 type canonicalizationState struct {
@@ -194,7 +193,7 @@ func (a algorithmCanonicalization) Call() (*Canonicalization, error) {
 			// [spec // 4.4.3 // 5.2.2] Create temporary issuer, an identifier issuer initialized with the prefix b.
 
 			temporaryIssuer := identifierIssuer{
-				stringer:         blanknodes.NewInt64StringProvider("b%d"),
+				prefix:           "b",
 				knownIdentifiers: make(map[rdf.BlankNodeIdentifier]string),
 			}
 
